@@ -384,16 +384,6 @@ def run(ctx):
         return
     ctx.add_obligations(vcheck.coq_props("Conc", "C07"))
     ctx.add_obligations(vcheck.coq_props("Conc", "C07_unfixed" if unfixed else "C07_fixed"))
-    if not ctx.quick():
-        # independent re-check of the compiled theorems (one coqchk at a time)
-        with vcheck.Lock("coqchk"):
-            rc, out = sh(["timeout", "1500", "coqchk", "-silent", "-o", "-Q", os.path.join(vcheck.COQ, "Conc"), "BWConc",
-                          "BWConc.Props.C07", "BWConc.Props." + ("C07_unfixed" if unfixed else "C07_fixed")],
-                         cwd=os.path.join(vcheck.COQ, "Conc"), timeout=1600)
-        ok = rc == 0 and "Axioms: <none>" in vcheck.norm(out)
-        ctx.cov["coqchk"] = {"ok": ok, "summary": vcheck.norm(out)[-400:]}
-        if not ok:
-            ctx.broken("coqchk rejects the compiled C07 theorems or finds axioms", out[-2000:])
     for p in problems[:5]:
         ctx.violation(p)
     if unfixed:
